@@ -18,6 +18,7 @@ import (
 	"os"
 	"os/exec"
 	"strings"
+	"syscall"
 	"time"
 )
 
@@ -90,13 +91,21 @@ func dspRunChild(in Fields) Fields {
 		return F("dead", "cannot-start-child: "+err.Error())
 	}
 	done := make(chan error, 1)
+	timedOut := false
 	go func() { done <- cmd.Wait() }()
 	select {
 	case err = <-done:
-	case <-time.After(120 * time.Second):
-		cmd.Process.Kill()
-		<-done
+	case <-time.After(150 * time.Second):
+		// ask the Go runtime for a goroutine dump (lands in the crash report), then kill
+		cmd.Process.Signal(syscall.SIGQUIT)
+		select {
+		case <-done:
+		case <-time.After(5 * time.Second):
+			cmd.Process.Kill()
+			<-done
+		}
 		err = fmt.Errorf("child timed out")
+		timedOut = true
 	}
 	for _, l := range strings.Split(out.String(), "\n") {
 		if strings.HasPrefix(l, "OBS ") && err == nil {
@@ -116,6 +125,13 @@ func dspRunChild(in Fields) Fields {
 	}
 	if len(first) > 300 {
 		first = first[:300]
+	}
+	if timedOut {
+		dump := errb.String()
+		if len(dump) > 60000 {
+			dump = dump[:60000]
+		}
+		return F("dead", "child timed out", dump)
 	}
 	return F("dead", first)
 }
